@@ -2,9 +2,10 @@ package main
 
 import (
 	"fmt"
-	"os"
 	"go/token"
 	"go/types"
+	"os"
+	"strings"
 
 	"golang.org/x/tools/go/ssa"
 )
@@ -52,6 +53,11 @@ var c08Exceptions = []c08Exception{
 		fn: "(*bloom.Filter).hash", construct: "division (bloom.MurmurHash3(((hashNum*4221880213)+….Tweak),data)%(uint32(len(….Filter))<<3))",
 		reason:  "divisor uint32(len(filter))<<3 is non-zero when 0 < len(filter) < 2^29: non-emptiness is proved at every call site; the upper bound is the statement's 'within the wire limits' (36000 bytes)",
 		premise: nonEmptyAtCallSites,
+	},
+	{
+		fn: "(*bchutil.Block).Transactions", construct: "index b.msgBlock.Transactions[(rangeindex+1)]",
+		reason:  "class invariant of bchutil.Block: the per-index cache is only ever made with len(msg.Transactions) (C16.index), so an index ranging over the cache is in range of the message's list",
+		premise: blockCachePremise,
 	},
 	{
 		fn: "(*merkleblock.PartialBlock).ExtractMatches", construct: "loop #1 terminates",
@@ -397,7 +403,7 @@ func projectLin(facts []Lin, keep map[int]int) []Lin {
 			for _, n := range neg {
 				a, b := p.coef[elim], -n.coef[elim]
 				g := gcd64(a, b)
-				r := p.scale(b / g).add(n, a/g)
+				r := p.scale(b/g).add(n, a/g)
 				delete(r.coef, elim)
 				if r.isConst() {
 					continue
@@ -576,7 +582,6 @@ func sortClosureAxioms(p *Program, fn *ssa.Function, lc *LinCtx) []Lin {
 
 var _ = types.Typ
 
-
 // paramEntryFacts: for an unexported in-repo function that is never used as a
 // value, a parameter that receives a constant at every call site is bounded by
 // the smallest and largest of those constants (inter-procedural constant facts).
@@ -648,7 +653,6 @@ func paramEntryFacts(p *Program, fn *ssa.Function, lc *LinCtx) []Lin {
 	}
 	return out
 }
-
 
 // c08ctx gives exception premises access to the whole-program analyses.
 var c08ctx struct {
@@ -745,4 +749,67 @@ func nonEmptyAtCallSites(pr *Prover, in ssa.Instruction) (bool, string) {
 		return false, "no call site found"
 	}
 	return true, fmt.Sprintf("len(%s) ≥ 1 proved at all %d call sites", ps.String(), sites)
+}
+
+// blockCachePremise: the index is proved in range with the class invariant len(cache) = len(msg.Transactions)
+// added (the invariant's own premise, every make of the cache being sized len(msg.Transactions), is checked
+// repository-wide here as well as by C16.index).
+func blockCachePremise(pr *Prover, in ssa.Instruction) (bool, string) {
+	ia, ok := in.(*ssa.IndexAddr)
+	if !ok {
+		return false, "not an index"
+	}
+	fn := in.Parent()
+	if len(fn.Params) == 0 {
+		return false, "no receiver"
+	}
+	recv := ssa.Value(fn.Params[0])
+	st, ok := derefType(recv.Type()).Underlying().(*types.Struct)
+	if !ok {
+		return false, "receiver is not a struct pointer"
+	}
+	var extra []Lin
+	for i := 0; i < st.NumFields(); i++ {
+		cf := st.Field(i)
+		sl, isSl := cf.Type().Underlying().(*types.Slice)
+		if !isSl {
+			continue
+		}
+		if _, isPtr := sl.Elem().Underlying().(*types.Pointer); !isPtr {
+			continue
+		}
+		// every make stored into this field anywhere is sized by len(….Transactions)
+		for _, g := range pr.p.Funcs {
+			for _, b := range g.Blocks {
+				for _, in2 := range b.Instrs {
+					s2, ok := in2.(*ssa.Store)
+					if !ok {
+						continue
+					}
+					fa, ok := s2.Addr.(*ssa.FieldAddr)
+					if !ok || fieldOfAddr(fa) != cf {
+						continue
+					}
+					if _, fresh := canonRoot(fa.X).(*ssa.Alloc); fresh && isNilConst(s2.Val) {
+						continue
+					}
+					ms, ok := s2.Val.(*ssa.MakeSlice)
+					if !ok {
+						return false, "the cache field " + cf.Name() + " is assigned something other than a fresh make in " + FnName(g)
+					}
+					c, ok := stripIntConv(ms.Len).(*ssa.Call)
+					if !ok || !isBuiltin(&c.Call, "len") || !strings.Contains(exprString(c.Call.Args[0]), ".Transactions") {
+						return false, "the cache field " + cf.Name() + " is made with a length other than len(msg.Transactions) in " + FnName(g)
+					}
+				}
+			}
+		}
+		extra = append(extra, cacheInvariant(pr.lc, fn, recv, cf)...)
+	}
+	g1, _ := pr.ProveWith(in.Block(), extra, pr.lc.Lin(ia.Index).scale(-1))
+	g2, _ := pr.ProveWith(in.Block(), extra, pr.lc.Lin(ia.Index).addConst(1).add(pr.lc.LenLin(ia.X), -1))
+	if g1 && g2 {
+		return true, "proved with len(cache) = len(msg.Transactions)"
+	}
+	return false, "not provable even with the cache invariant"
 }
